@@ -122,15 +122,13 @@ Fixpoint write_fde_insns (dbg be : bool) (caf : N) (daf : Z) (prev : N) (l : lis
       let* c := write_fde_insns dbg be caf daf off r in Ok (a ++ b ++ c)
   end.
 
-(* fn write_nop(w, len: usize, align: u8):
-     debug_assert_eq!(align & (align - 1), 0);   -- `align - 1` on u8 overflows for align = 0
+(* fn write_nop(w, len: usize, align: u8)  (repo 768c9da):
+     if !matches!(align, 1 | 2 | 4 | 8) { return Err(Error::UnsupportedWordSize(align)); }
      let tail_len = (!len + 1) & (align as usize - 1);
-   align = 0 in a release build: `0usize - 1` wraps to usize::MAX and the loop appends 2^64 - len bytes,
-   i.e. the process runs out of memory; modelled as Panic (never generated for the release harness). *)
+   `!len + 1` overflows only for len = 0, which the two call sites never pass. *)
 Definition write_nop (dbg : bool) (length align : N) : res (list byte) :=
-  if align =? 0 then Panic else
-  if dbg && negb (N.land align (align - 1) =? 0) then Panic else
-  if dbg && (length =? 0) then Panic (* !0 + 1 overflows; length is a real usize, never 0 at the two call sites *) else
+  if negb ((align =? 1) || (align =? 2) || (align =? 4) || (align =? 8)) then Err WUnsupportedWordSize else
+  if dbg && (length =? 0) then Panic else
   let neg := wrap64 (two64 - wrap64 length) in
   let tail := N.land neg (align - 1) in
   Ok (repeat x00 (N.to_nat tail)).
